@@ -120,31 +120,44 @@ type elemKey struct {
 	key, sort string
 	addr      func(string) string
 	zero      string
+	path      []string // address functions from the element outwards
+}
+
+// regionMember over-approximates "x is the location (for this key) of some element of array arr".
+func (g *Globals) regionMember(x, arr string, path []string) string {
+	var conds []string
+	cur := x
+	for i := len(path) - 1; i >= 0; i-- {
+		conds = append(conds, fmt.Sprintf("(= (tag %s) %d)", cur, g.fldTag[path[i]]))
+		cur = "(" + path[i] + "_inv " + cur + ")"
+	}
+	conds = append(conds, "(= (tag "+cur+") 1)", "(= (elem_arr "+cur+") "+arr+")")
+	return and(conds...)
 }
 
 func (a *Act) elemKeys(et types.Type) []elemKey {
 	g := a.vc.g
 	var out []elemKey
-	var rec func(t types.Type, addr func(string) string)
-	rec = func(t types.Type, addr func(string) string) {
+	var rec func(t types.Type, addr func(string) string, path []string)
+	rec = func(t types.Type, addr func(string) string, path []string) {
 		if si := g.structInfoOf(t); si != nil {
 			if _, isTP := isTypeParam(t); !isTP {
 				for i, f := range si.Fields {
 					if g.structInfoOf(f.T) != nil {
 						fn := g.fldFn(si, i)
-						rec(f.T, func(x string) string { return app(fn, addr(x)) })
+						rec(f.T, func(x string) string { return app(fn, addr(x)) }, append(append([]string(nil), path...), fn))
 					} else {
 						k, s := g.fieldHeapKey(si, i)
-						out = append(out, elemKey{k, s, addr, a.zero(f.T).S})
+						out = append(out, elemKey{k, s, addr, a.zero(f.T).S, path})
 					}
 				}
 				return
 			}
 		}
 		k, s := memKey(g.sortOf(t))
-		out = append(out, elemKey{k, s, addr, a.zero(t).S})
+		out = append(out, elemKey{k, s, addr, a.zero(t).S, path})
 	}
-	rec(et, func(x string) string { return x })
+	rec(et, func(x string) string { return x }, nil)
 	return out
 }
 
@@ -164,8 +177,8 @@ func (a *Act) copyElems(st *State, dst, src Val, n string, et types.Type) {
 		vc.assume(st.guard, fmt.Sprintf("(forall ((i Int)) (! (=> (and (<= 0 i) (< i %s)) (= (select %s %s) (select %s %s))) :pattern ((select %s %s))))",
 			n, nh, ek.addr(fmt.Sprintf("(elem (sl_arr %s) (+ (sl_off %s) i))", d, d)), old, ek.addr(fmt.Sprintf("(elem (sl_arr %s) (+ (sl_off %s) i))", s, s)),
 			nh, ek.addr(fmt.Sprintf("(elem (sl_arr %s) (+ (sl_off %s) i))", d, d))))
-		// frame: other arrays unchanged
-		vc.assume(st.guard, fmt.Sprintf("(forall ((x Int)) (! (=> (not (= (base x) (base (sl_arr %s)))) (= (select %s x) (select %s x))) :pattern ((select %s x))))", d, nh, old, nh))
+		// frame: locations that are not elements of the destination array are unchanged
+		vc.assume(st.guard, fmt.Sprintf("(forall ((x Int)) (! (=> (not %s) (= (select %s x) (select %s x))) :pattern ((select %s x))))", vc.g.regionMember("x", "(sl_arr "+d+")", ek.path), nh, old, nh))
 		st.heap[ek.key] = nh
 		a.logHeap(ek.key)
 	}
